@@ -19,6 +19,7 @@ RULE = (
     "configuration and after every step builds a fresh simulation from it. Non-trivial = an invalidating change applied "
     "after the matrices were built at least once; distinct = sha1 of the history."
     ' phasefield_history: parameter / mesh modifications of a PhaseField simulation with an injected (u, d) state, matrices of both problems and energies vs a fresh simulation (non-trivial = a modification after a first read). inelastic_history: plastic steps committed, mesh replaced (same or other size), first step vs a new simulation (non-trivial = plastic flow before the replacement).'
+    ' restore_then_solve: a run of saved load steps up to a peak and back, Set_Iter(j), one more step - against a new simulation replayed up to iteration j (non-trivial = j is not the last iteration and the response is non-zero).'
 )
 ASSUMPTIONS = [
     "reference = a new simulation built from the declarative model (new law object, new Mesh object rebuilt from arrays, "
@@ -1035,3 +1036,22 @@ def run_restore_history(case, rec):
 
 
 SUBS.append(Sub("restore_then_solve", run_restore_history, gen=restore_histories, quick=60, thorough=500, shards=6))
+
+
+def enum_restore(tier):
+    sq = [[0.0, 0.0], [1.0, 0.0], [1.0, 1.0], [0.0, 1.0]]
+    loads = [0.5, 1.0, 1.5, 1.1, 0.7]
+    for et in ("TRI3", "QUAD4"):
+        r = dict(verts=sq, h=0.5, elemType=et, organised=(et == "QUAD4"), extrude=None, layers=0, A=None, b=None, perm=None, orphans=0)
+        for j in (0, 2, 3):
+            for solver in ("History", "HistoryDamage", "BoundConstrain"):
+                for conv in (None, 0):
+                    yield dict(kind="phasefield", recipe=r, loads=loads, initial_save=False, j=j, lam_next=0.75, pfsolver=solver, regu="AT2",
+                               split="Miehe", conv=conv)
+            for kind in ("inelastic", "hyperelastic", "thermal", "elastic_dyn"):
+                for init in (False, True):
+                    yield dict(kind=kind, recipe=r, loads=loads, initial_save=init, j=j, lam_next=0.75, algo="newmark")
+
+
+SUBS.append(Sub("restore_grid", run_restore_history, enum=enum_restore,
+                doc="simulation kind x solver / stopping rule x restored iteration (first, peak, after the peak) x initial-configuration save"))
